@@ -168,6 +168,9 @@ structure DState where
   s : LState
   names : List Nat
   modes : ModeSpec
+  /-- `results_update_interval = -1`: the store callback writes the table after every result, so the table on disk
+  is `rows` at every exit (also when `run()` leaves before the callback's `on_tuning_end`) -/
+  storeEvery : Bool := false
 
 def jFinal (d : DState) : Json :=
   let ts := d.s.status
@@ -187,7 +190,8 @@ def jFinal (d : DState) : Json :=
     | .error _ => jS "error"
   -- `ExperimentResult.best_config(metric=i)`: row of the stored table
   let bestRows := (List.range d.names.length).map fun i =>
-    match metricNameMode d.names d.modes (.byIndex (i : Nat)), d.s.stored with
+    match metricNameMode d.names d.modes (.byIndex (i : Nat)),
+          (if d.storeEvery && d.s.cfg.store && !d.s.rows.isEmpty then some d.s.rows else d.s.stored) with
     | .ok (n, m), some rows =>
       if rows.any (fun (r : Row) => alookup n r.m == some Val.other) then jS "error" else
       (match argBest (m == .min) (rows.map fun (r : Row) => match alookup n r.m with | some (Val.num x) => x | _ => XRat.nan) 0 with
@@ -231,7 +235,8 @@ def loopInit (j : Json) : Except String (DState × Json) := do
   let modes := if getBoolD j "mode_is_list" false then ModeSpec.many ms
                else match ms with | m :: _ => ModeSpec.one m | [] => ModeSpec.one .min
   let s := settle (init cfg)
-  return ({ s := s, names := names, modes := modes }, jOut (jObj [("call", jCall (pending s))]))
+  return ({ s := s, names := names, modes := modes, storeEvery := getBoolD j "store_every" false },
+          jOut (jObj [("call", jCall (pending s))]))
 
 /-- reference-style op for `metric_name_mode` (C17 `mode_lookup`) -/
 def modeLookup (j : Json) : Except String Json := do
